@@ -1689,7 +1689,10 @@ impl Kanata {
                             );
                         }
                         CustomAction::CancelMacroOnNextPress(duration) => {
-                            self.macro_on_press_cancel_duration = *duration;
+                            // Several cancel-on-press macros can be in progress at once;
+                            // the trigger must stay enabled until the longest of them is done.
+                            self.macro_on_press_cancel_duration =
+                                self.macro_on_press_cancel_duration.max(*duration);
                         }
                         CustomAction::SendArbitraryCode(code) => {
                             #[cfg(all(not(feature = "simulated_output"), target_os = "windows"))]
